@@ -76,9 +76,9 @@ def snapshot_handles(h):
     return c
 
 
-def _object_comprehension(eng, n, fr, kind, first):
-    """[elt for x in S] over a symbolic-length S where elt builds an object: evaluated once, symbolically in the
-    position (like pyvc.npmodels.symbolic_comprehension); returns None when elt is not an object."""
+def _eval_element(eng, n, fr, first):
+    """evaluate the element expression of `[elt for x in S]` once, symbolically in the position i (cf.
+    pyvc.npmodels.symbolic_comprehension): returns (value, i, length term, uid mark before the evaluation)"""
     gens = n.generators
     length, getter = MODELS.as_sequence(eng, first)
     i = z3.Int(fresh_name("ci"))
@@ -97,8 +97,10 @@ def _object_comprehension(eng, n, fr, kind, first):
         eng.pc = saved
         for h in new:
             eng.pc.append(z3.ForAll([i], z3.Implies(z3.And(i >= 0, i < nz), h)))
-    if not isinstance(vv, Obj):
-        return None
+    return vv, i, z3.simplify(nz), mark
+
+
+def _handle_list(eng, vv, i, nz, mark):
     fixed, scal, vecs = {}, {}, {}
     for nm, val in vv.fields.items():
         if isinstance(val, Sym):
@@ -112,10 +114,7 @@ def _object_comprehension(eng, n, fr, kind, first):
         else:
             fixed[nm] = val
     eng.assumptions.add("list-model: a list of view objects built by one constructor call per position is stored field-wise (elements are value objects: their fields are never reassigned, identity is never observed)")
-    out = HandleList(vv.cls, fixed, scal, vecs, z3.simplify(nz))
-    if isinstance(first, Iter):
-        first.consumed = True
-    return Iter(out) if kind == "gen" else out
+    return HandleList(vv.cls, fixed, scal, vecs, nz)
 
 
 def _handles_of(v):
@@ -146,14 +145,22 @@ class ModelsProxy:
             symbolic = isinstance(probe, (SArr, models._SymRange, SymStepRange)) or (isinstance(probe, PList) and probe.items is None)
             if symbolic:
                 pc0, nob = list(eng.pc), len(eng.obligs)
-                r = _object_comprehension(eng, n, fr, kind, probe) if isinstance(n.elt, ast.Call) or isinstance(n.elt, ast.Subscript) else None
-                if r is not None:
+                vv, i, nz, mark = _eval_element(eng, n, fr, probe)
+                out = None
+                if isinstance(vv, Obj):
+                    out = _handle_list(eng, vv, i, nz, mark)
+                elif isinstance(vv, NArr) and vv.view_of is None:
+                    out = VecList([z3.Lambda([i], to_z3(x, vv.kind)) for x in vv.items], nz, vv.shape, vv.kind, vv.dtype)
+                if out is not None:
                     if isinstance(first, Iter):
                         first.consumed = True
-                    return r
+                    return Iter(out) if kind == "gen" else out
                 eng.pc = pc0
                 del eng.obligs[nob:]
-                return npmodels.symbolic_comprehension(eng, n, fr, kind, probe)
+                r = npmodels.symbolic_comprehension(eng, n, fr, kind, probe)
+                if isinstance(first, Iter):
+                    first.consumed = True
+                return r
             return _concrete_comprehension(eng, n, fr, kind, first)
         return models.comprehension(eng, n, fr, kind)
 
@@ -270,3 +277,192 @@ def slice_indices(eng, sl, args, kwargs):
 
 
 ModelsProxy.slice_indices = staticmethod(slice_indices)
+
+
+# ---------------------------------------------------------------------------------------------------------------
+# arrays with a symbolic number of rows and a small concrete shape per row
+class SRows:
+    """numpy array of shape (m, *inner): m symbolic, `inner` a concrete tuple; `cells[q]` is the z3 array (row -> entry)
+    of the q-th inner position (row-major).  `base` is set for the result of a basic slice (a view)."""
+
+    def __init__(self, cells, n, inner, kind="real", dtype=None):
+        self.cells, self.n, self.inner, self.kind, self.dtype = list(cells), n, tuple(inner), kind, dtype
+        self.uid = next_uid()
+        self.frozen = False
+        size = 1
+        for s in self.inner:
+            size *= s
+        assert size == len(self.cells)
+
+    def nz(self):
+        return zint(self.n)
+
+    def cell(self, *pos):
+        q = 0
+        for p, s in zip(pos, self.inner):
+            q = q * s + p
+        return self.cells[q]
+
+    def __pyvc_snapshot__(self, memo):
+        c = SRows(self.cells, self.n, self.inner, self.kind, self.dtype)
+        c.uid = self.uid
+        return c
+
+    def __pyvc_getattr__(self, eng, name):
+        if name == "ndim":
+            return 1 + len(self.inner)
+        if name == "shape":
+            return (eng.snum(self.nz(), "int"),) + self.inner
+        if name == "dtype":
+            return self.dtype if self.dtype is not None else npmodels.dtype_of_kind(self.kind)
+        raise Unsupported(f"attribute {name} of an array with a symbolic number of rows")
+
+    def __pyvc_getitem__(self, eng, idx):
+        if isinstance(idx, tuple) and len(idx) == 2 and len(self.inner) == 1 and isinstance(idx[0], slice) and idx[0] == slice(None) and isinstance(idx[1], int) and not isinstance(idx[1], bool):
+            j = idx[1]
+            if not -self.inner[0] <= j < self.inner[0]:
+                raise ProgExc(IndexError, "column index out of bounds")
+            j %= self.inner[0]
+            used(eng, "basic-slice-is-view")
+            v = SArr(self.cells[j], self.n, self.kind, name=f"col{j}", dtype=self.dtype)
+            v.uid, v.frozen, v.view_of_rows = self.uid, self.frozen, (self, j)  # a view: same allocation as the matrix
+            return v
+        raise Unsupported("index form on an array with a symbolic number of rows")
+
+
+def _has_sym(v):
+    if isinstance(v, Sym):
+        return True
+    if isinstance(v, PList) and v.items is not None:
+        return any(_has_sym(x) for x in v.items)
+    if isinstance(v, (tuple, list)):
+        return any(_has_sym(x) for x in v)
+    return False
+
+
+def _shape_items(v):
+    if isinstance(v, PList):
+        return list(v.items)
+    if isinstance(v, (tuple, list)):
+        return list(v)
+    return [v]
+
+
+def _np_const(value_of):
+    def model(eng, args, kwargs, stock):
+        shape = args[0]
+        if not _has_sym(shape):
+            return stock(eng, args, kwargs)
+        dims = _shape_items(shape)
+        fv = value_of(args, kwargs)
+        dt = kwargs.get("dtype")
+        k = npmodels.kind_of_dtype(dt) if dt is not None else (kind_of(fv) if value_of is not _one else "real")
+        if not isinstance(dims[0], Sym) or any(isinstance(d, Sym) for d in dims[1:]):
+            raise Unsupported("constant array whose symbolic extent is not the first one")
+        if not eng.spec_mode:
+            eng.prove(eng.site("extent-nonnegative"), dims[0].z >= 0, "safety", "negative dimensions are not allowed")
+        used(eng, "np.ones/np.full with a symbolic first extent: every entry is the fill value")
+        const = z3.K(z3.IntSort(), to_z3(fv, k))
+        if len(dims) == 1:
+            return SArr(const, dims[0].z, k, name="const", dtype=dt)
+        inner = tuple(int(d) for d in dims[1:])
+        size = 1
+        for s in inner:
+            size *= s
+        return SRows([const] * size, dims[0].z, inner, k, dt)
+
+    return model
+
+
+def _one(args, kwargs):
+    return 1
+
+
+def _fill(args, kwargs):
+    return kwargs.get("fill_value", args[1] if len(args) > 1 else None)
+
+
+def _wrap_stock(fn, mine):
+    stock = npmodels.lookup_model(fn)
+
+    def model(eng, args, kwargs):
+        return mine(eng, args, kwargs, stock)
+
+    return model
+
+
+def _np_concatenate(eng, args, kwargs, stock):
+    seq = args[0].items if isinstance(args[0], PList) else list(args[0])
+    if not any(isinstance(x, SRows) for x in seq):
+        return stock(eng, args, kwargs)
+    axis = kwargs.get("axis", args[1] if len(args) > 1 else 0)
+    if axis != 1 or not all(isinstance(x, SRows) and len(x.inner) == 1 for x in seq):
+        raise Unsupported("np.concatenate form on arrays with a symbolic number of rows")
+    for x in seq[1:]:
+        g = z3.simplify(seq[0].nz() == x.nz())
+        if not z3.is_true(g) and not eng.spec_mode:
+            eng.prove(eng.site("shape-match"), g, "shape", "np.concatenate along axis 1")
+    used(eng, "np.concatenate([A, B], axis=1): fresh array, the columns of A then the columns of B")
+    k = "real" if any(x.kind == "real" for x in seq) else seq[0].kind
+    cells = []
+    for x in seq:
+        for c in x.cells:
+            cells.append(c if x.kind == k else npmodels.lam(lambda i, _c=c, _k=x.kind: to_z3(Sym(z3.Select(_c, i), _k), k), k))
+    return SRows(cells, seq[0].n, (len(cells),), k)
+
+
+class VecList(PList):
+    """symbolic-length list of numpy arrays of one concrete shape (the result of [f(x) for x in handles])"""
+
+    def __init__(self, cells, n, inner, kind, dtype=None):
+        super().__init__()
+        self.items = None
+        self.cells, self.n, self.inner, self.vkind, self.vdtype = list(cells), n, tuple(inner), kind, dtype
+        self.kinds, self.cols, self.tup = [], [], False
+
+    def get(self, i):
+        iz = to_z3(i, "int")
+        return NArr(self.inner, [Sym(z3.simplify(z3.Select(c, iz)), self.vkind) for c in self.cells], self.vkind, self.vdtype)
+
+
+def _np_array(eng, args, kwargs, stock):
+    src = args[0]
+    if isinstance(src, VecList):
+        used(eng, "np.array of a list of equally shaped arrays stacks them along a new first axis (fresh array)")
+        dt = kwargs.get("dtype", args[1] if len(args) > 1 else None)
+        k = npmodels.kind_of_dtype(dt) if dt is not None else src.vkind
+        if k != src.vkind:
+            raise Unsupported("np.array of a list of arrays with a dtype conversion")
+        return SRows(src.cells, src.n, src.inner, k, dt or src.vdtype)
+    return stock(eng, args, kwargs)
+
+
+def _np_stack(eng, args, kwargs, stock):
+    seq = args[0].items if isinstance(args[0], PList) and args[0].items is not None else (list(args[0]) if isinstance(args[0], (list, tuple)) else None)
+    if not seq or not all(isinstance(x, SRows) for x in seq):
+        return stock(eng, args, kwargs)
+    axis = kwargs.get("axis", args[1] if len(args) > 1 else 0)
+    a0 = seq[0]
+    if any(x.inner != a0.inner for x in seq):
+        raise ProgExc(ValueError, "all input arrays must have the same shape")
+    if axis != 1 + len(a0.inner):
+        raise Unsupported("np.stack of arrays with a symbolic number of rows along an axis other than the new last one")
+    for x in seq[1:]:
+        g = z3.simplify(a0.nz() == x.nz())
+        if not z3.is_true(g) and not eng.spec_mode:
+            eng.prove(eng.site("shape-match"), g, "shape", "np.stack")
+    used(eng, "np.stack([A1..Ak], axis=last): fresh array with out[..., j] = Aj[...]")
+    k = "real" if any(x.kind == "real" for x in seq) else a0.kind
+    cells = []
+    for q in range(len(a0.cells)):
+        for x in seq:
+            c = x.cells[q]
+            cells.append(c if x.kind == k else npmodels.lam(lambda i, _c=c, _k=x.kind: to_z3(Sym(z3.Select(_c, i), _k), k), k))
+    return SRows(cells, a0.n, a0.inner + (len(seq),), k)
+
+
+models.EXTRA_MODELS[np.ones] = _wrap_stock(np.ones, _np_const(_one))
+models.EXTRA_MODELS[np.full] = _wrap_stock(np.full, _np_const(_fill))
+models.EXTRA_MODELS[np.concatenate] = _wrap_stock(np.concatenate, _np_concatenate)
+models.EXTRA_MODELS[np.array] = _wrap_stock(np.array, _np_array)
+models.EXTRA_MODELS[np.stack] = _wrap_stock(np.stack, _np_stack)
